@@ -30,18 +30,24 @@ pub const TARGET_PORT: u16 = 7;
 pub const SILENT_PONGS: u32 = 2;
 pub const SILENT_ANSWERS_FOR: Duration = Duration::from_millis(700);
 
+/// What a `garbage` / `garbage-reply` server sends as one binary message: eight octets with an
+/// operation code that does not exist (`penguin_mux::Error::InvalidFrame` at the client).
+pub const GARBAGE: [u8; 8] = [0xff; 8];
+
 #[derive(Clone, Debug, Default)]
 pub struct AttemptLog {
     /// `accept()` returned at the fake server
     pub accept_ms: f64,
     /// behaviour played (None: an attempt beyond the end of the script; it is stalled)
     pub beh: Option<Beh>,
+    /// an attempt beyond the end of a script that ends with `garbage` / `garbage-reply`: that behaviour is played again
+    pub beyond: bool,
     pub hs_done_ms: Option<f64>,
     pub hs_err: Option<String>,
     /// taken immediately before / after the server's failure action (drop, Close, 404)
     pub act_before_ms: Option<f64>,
     pub act_after_ms: Option<f64>,
-    /// first binary message (the `Connect` frame) seen by a `mute` connection
+    /// first binary message (the `Connect` frame) seen by a `mute` / `garbage-reply` connection
     pub first_bin_ms: Option<f64>,
     /// the peer closed / the connection ended as seen by the server
     pub peer_end_ms: Option<f64>,
@@ -120,8 +126,11 @@ impl Shared {
 // scripted fake server
 // ---------------------------------------------------------------------------------------
 
-/// Plays `script[j]` on the j-th accepted connection; connections beyond the script are stalled.
+/// Plays `script[j]` on the j-th accepted connection; connections beyond the script are stalled --
+/// unless the script ends with `garbage` / `garbage-reply`: a server that answers like that does so on
+/// every connection, so a client that comes back after it is seen coming back again and again.
 pub async fn serve(listener: TcpListener, script: Vec<Beh>, sh: Arc<Shared>) {
+    let again = script.last().copied().filter(|b| matches!(b, Beh::Garbage | Beh::GarbageReply));
     let mut handlers = JoinSet::new();
     loop {
         let Ok((stream, _)) = listener.accept().await else {
@@ -129,12 +138,13 @@ pub async fn serve(listener: TcpListener, script: Vec<Beh>, sh: Arc<Shared>) {
             continue;
         };
         let t = sh.now_ms();
-        let j = sh.with(|l| {
+        let (j, beh) = sh.with(|l| {
             let j = l.attempts.len();
-            l.attempts.push(AttemptLog { accept_ms: t, beh: script.get(j).copied(), ..Default::default() });
-            j
+            let beh = script.get(j).copied().or(again);
+            l.attempts.push(AttemptLog { accept_ms: t, beh, beyond: j >= script.len(), ..Default::default() });
+            (j, beh)
         });
-        handlers.spawn(handle(stream, j, script.get(j).copied(), sh.clone()));
+        handlers.spawn(handle(stream, j, beh, sh.clone()));
     }
 }
 
@@ -215,7 +225,7 @@ async fn handle(mut stream: TcpStream, j: usize, beh: Option<Beh>, sh: Arc<Share
             drain_tcp(&mut stream, Duration::from_secs(10)).await;
             set(&|a, t| a.peer_end_ms = Some(t));
         }
-        Beh::Close0 | Beh::Close300 | Beh::CloseHold | Beh::Drop | Beh::Mute | Beh::Silent | Beh::Healthy => {
+        Beh::Close0 | Beh::Close300 | Beh::CloseHold | Beh::Drop | Beh::Mute | Beh::Silent | Beh::Healthy | Beh::Garbage | Beh::GarbageReply => {
             let mut ws = match tokio_tungstenite::accept_hdr_async(stream, echo_subprotocol).await {
                 Ok(ws) => ws,
                 Err(e) => {
@@ -300,6 +310,33 @@ async fn handle(mut stream: TcpStream, j: usize, beh: Option<Beh>, sh: Arc<Share
                     tokio::time::sleep(Duration::from_secs(120)).await;
                     drop(ws);
                 }
+                Beh::Garbage | Beh::GarbageReply => {
+                    if beh == Beh::GarbageReply {
+                        // waits for the client's first binary message (the `Connect` of a local connection)
+                        let first = tokio::time::timeout(Duration::from_secs(120), async {
+                            loop {
+                                match ws.next().await {
+                                    Some(Ok(Message::Binary(_))) => break true,
+                                    Some(Ok(_)) => {}
+                                    Some(Err(_)) | None => break false,
+                                }
+                            }
+                        })
+                        .await;
+                        if !matches!(first, Ok(true)) {
+                            set(&|a, t| a.peer_end_ms = Some(t));
+                            return;
+                        }
+                        set(&|a, t| a.first_bin_ms = Some(t));
+                    }
+                    // one binary message that is not a frame of the protocol ...
+                    set(&|a, t| a.act_before_ms = Some(t));
+                    let _ = ws.send(Message::Binary(GARBAGE.to_vec().into())).await;
+                    set(&|a, t| a.act_after_ms = Some(t));
+                    // ... then reads until the peer ends the connection (the server does not tear it down)
+                    let _ = tokio::time::timeout(Duration::from_secs(120), async { while let Some(Ok(_)) = ws.next().await {} }).await;
+                    set(&|a, t| a.peer_end_ms = Some(t));
+                }
                 Beh::Mute => {
                     // reads everything, never answers a `Connect`
                     let _ = tokio::time::timeout(Duration::from_secs(120), async {
@@ -373,6 +410,7 @@ fn classify(e: &client::Error) -> String {
         E::Tungstenite(_) => "tungstenite".into(),
         E::TcpConnect(_) => "tcp-connect".into(),
         E::Tls(_) => "tls".into(),
+        E::Mux(penguin_mux::Error::InvalidFrame(_)) => "invalid-frame".into(),
         E::Mux(_) => "mux".into(),
         E::HandshakeTimeout => "handshake-timeout".into(),
         E::Cancelled => "cancelled".into(),
